@@ -12,8 +12,11 @@ def atomOf : Sexp → R String
   | .atom s => .ok s
   | x => .error s!"atom expected: {x.toString}"
 
+/-- a number inside a program or an argument list: a `Fraction` stays a `Fraction` (even when its value
+is dyadic) — only `ops.*` convert it on entry (`_cvt_to_real`, modelled by `cvtReal`) -/
 def nvOfTok (t : String) : R NV :=
   match runP pOperand [t] with
+  | .ok (.frac n d) => .ok (NV.frac n d)
   | .ok o => .ok (operandNV o)
   | .error e => .error e
 
